@@ -44,9 +44,9 @@ TEXT = {
          "contract-based deductive verification (Verus) of the real inlining_pass (loop invariant over the statement list) and resolve"),
  "C07": ("other", "4.13", "PARTIAL (two mechanisms): Verus proves that the real SessionHistory::save_inner writes exactly the successful inputs, one line each, in order (so a replay of the saved file replays exactly those), and that the last-result identifiers denote the value of the most recent top-level expression statement regardless of how statements are grouped into inputs (Return / GetLastResult arms of the VM). Agreement of incremental, batched and replayed sessions in general, and independence of a copied session, are not covered.",
          "contract-based deductive verification (Verus) of the real save_inner (loop invariant against a recursive spec function) and of the VM's last-result arms"),
- "C09": ("other", "4.6", "PARTIAL: Verus proves (i) layout and little-endian round-trip contracts on the real Vm::{push_u16, add_op*, patch_u16_value_at, read_byte, read_u16}; (ii) per-arm layout contracts for 11 arms of compile_expression (identifier resolution = innermost binding, operator mapping and operand order, conditionals with their two jumps, lists / call arguments in source order, calls, function values) and the DefineFunction / expression-statement arms of compile_statement (scope = parameters ++ where-variables while the body is compiled); (iii) whole-stack postconditions for 17 arms of the VM run loop (jumps, logic, comparison, arithmetic, variables, calls and returns, structs, constants, list literals, procedure calls) plus lemmas tying (ii) and (iii) together. Not covered: struct / string / unit-identifier compiler arms, JoinString and foreign-function call arms, the dispatch loop; compile_expression at its recursive call sites is an assumed contract.",
+ "C09": ("other", "4.6 / 4.8", "PARTIAL: Verus proves (i) layout and little-endian round-trip contracts on the real Vm::{push_u16, add_op*, patch_u16_value_at, read_byte, read_u16}; (ii) per-arm layout contracts for 14 arms of compile_expression (identifier resolution = innermost binding, operator mapping and operand order, conditionals with their two jumps, lists / call arguments / struct fields / string parts in source resp. definition order, calls, function values, field access, constants) and the DefineFunction / expression-statement / procedure-call arms of compile_statement plus compile_define_variable (scope = parameters ++ where-variables while the body is compiled); (iii) whole-stack postconditions for about 20 arms of the VM run loop (jumps, logic, comparison, arithmetic, variables and upvalues, last result, constants, calls and returns, calls through function values, struct construction and field access, list literals, marshalling of foreign-call arguments, procedure calls) plus lemmas tying (ii) and (iii) together; (iv) BytecodeInterpreter::run touches the VM only through Vm::run. Not covered: unit-identifier / unit-definition arms, JoinString, Power / Factorial / date-time arms and the result handling of foreign FUNCTION calls, the dispatch loop itself; compile_expression at its recursive call sites is an assumed contract.",
          "contract-based deductive verification (Verus): arm-level extraction of the real compiler and VM match arms, layout/stack postconditions and lemmas"),
- "C08": ("other", "5", "PARTIAL: panic-freedom of every function under contract in all units (arithmetic overflow, indexing, unwrap/expect, unreachable!, assert!/debug_assert! become Verus obligations under the stated preconditions). NOT the whole pipeline: tokenizer, parser, type checker, Product/Unit/DType arithmetic, diagnostics and promptness are outside; the three crashes named in the statement are outside every unit and are not detected.",
+ "C08": ("other", "5", "PARTIAL: panic-freedom of every function under contract in all units (arithmetic overflow, indexing, unwrap/expect, unreachable!, assert!/debug_assert! become Verus obligations under the stated preconditions), including the run-time quantity-literal parser parse_quantity_ast. NOT the whole pipeline: tokenizer, statement parser, most of the type checker, Product/Unit/DType arithmetic, diagnostics rendering and promptness/termination are outside; of the crashes named in the statement only those inside functions under contract are detected.",
          "contract-based deductive verification (Verus): safety obligations of all extracted bodies"),
 }
 
